@@ -12,7 +12,15 @@ KF_C02(o) == "NEW"
    for blocks in several positions (`( [ ] )`, after a suffix operator, before a value) the result has a parent that does
    not list the block as child, and the block or its neighbour owns no instruction.  Matcher: a tree / attribution
    failure of a program that contains a SideEffect node. *)
-HasSideEffect(o) == \E i \in DOMAIN o.nodes : o.nodes[i].d = "SideEffect"
+\* the positions in which the unchanged tree mishandles a side-effect block S: directly after / inside another block
+\* (its parent is a SideEffect node), as the only content of a group or nested expression that then does not list it,
+\* or directly after a suffix operator
+HasSideEffect(o) == \E i \in DOMAIN o.nodes :
+   LET n == o.nodes[i] IN
+   /\ n.d = "SideEffect"
+   /\ \/ (n.p >= 0 /\ n.p < Len(o.nodes) /\ o.nodes[n.p + 1].d = "SideEffect")
+      \/ (n.p >= 0 /\ n.p < Len(o.nodes) /\ o.nodes[n.p + 1].d \in {"Group", "NestedExpression"} /\ o.nodes[n.p + 1].l # i - 1 /\ o.nodes[n.p + 1].r # i - 1)
+      \/ (n.l >= 0 /\ n.l < Len(o.nodes) /\ o.nodes[n.l + 1].sec = "UnarySuffix")
 Structural(o, i) == LET n == o.nodes[i + 1] IN
                     n.d = "ElseJump" \/ (n.d \in {"List", "CommaList"} /\ n.p >= 0 /\ n.p < Len(o.nodes) /\ o.nodes[n.p + 1].d = n.d)
 KF_C04Attr(o, missing) == IF \A i \in missing : Structural(o, i) THEN "C04-structural-nodes-own-no-instruction"
@@ -21,6 +29,6 @@ KF_C04Attr(o, missing) == IF \A i \in missing : Structural(o, i) THEN "C04-struc
    instruction, so the jump-table entry pushed for it (the program entry / the expression body) equals the instruction
    count at that moment and points past the end of the stream. *)
 EmptyGroup(o) == \E i \in DOMAIN o.nodes : o.nodes[i].d = "Group" /\ o.nodes[i].r < 0
-KF_C05(o, why) == IF EmptyGroup(o) THEN "C05-empty-brackets-build-nothing" ELSE IF HasSideEffect(o) THEN "C04-side-effect-blocks" ELSE "NEW"
+KF_C05(o, why) == IF EmptyGroup(o) THEN "C05-empty-brackets-build-nothing" ELSE "NEW"
 KF_Compile(o) == IF "nodes" \in DOMAIN o /\ HasSideEffect(o) THEN "C04-side-effect-blocks" ELSE "NEW"
 ==============================================================================
